@@ -297,9 +297,17 @@ namespace GitAi.Sys
 def expectedNote (head work : List Nat) (g : Nat → Author) : Note :=
   (enum1 work).filterMap (fun (i, y) => if head.contains y then none else (g y).map (fun s => (i, s)))
 
-theorem mem_enum1 {α} (l : List α) (i : Nat) (y : α) (h : (i, y) ∈ enum1 l) : y ∈ l := by
-  unfold enum1 at h
-  exact (List.of_mem_zip h).2
+theorem mem_enumFrom {α} (k : Nat) (l : List α) (i : Nat) (y : α) (h : (i, y) ∈ enumFrom k l) : y ∈ l := by
+  induction l generalizing k with
+  | nil => simp [enumFrom] at h
+  | cons x xs ih =>
+    simp only [enumFrom, List.mem_cons, Prod.mk.injEq] at h
+    rcases h with ⟨_, rfl⟩ | h
+    · simp
+    · exact List.mem_cons_of_mem _ (ih (k + 1) h)
+
+theorem mem_enum1 {α} (l : List α) (i : Nat) (y : α) (h : (i, y) ∈ enum1 l) : y ∈ l :=
+  mem_enumFrom 1 l i y h
 
 /-- **C01 at history level.** Start from a clean state (working tree = HEAD, empty working log, no
     pending attribution). After ANY sequence of human edits, agent edits by any sessions
@@ -378,12 +386,16 @@ theorem commit_exact (h0 : List Nat) (g0 : Nat → Author) (ops : List Op)
         have : (checkpoint spS.st none).head = sp.st.work := hprev'
         rw [hhC] at this
         exact this
-      show (List.range sp.st.work.length).map (fun i => initialAuthor [] (i + 1)) = _
-      have : ∀ (l : List Nat), (List.range l.length).map (fun i => initialAuthor [] (i + 1))
+      show (enum1 sp.st.work).map (fun p => initialAuthor [] p.1) = _
+      have : ∀ (k : Nat) (l : List Nat), (enumFrom k l).map (fun p => initialAuthor [] p.1)
           = l.map (fun _ => (none : Author)) := by
-        intro l
-        apply List.ext_getElem <;> simp [initialAuthor]
-      rw [this]
+        intro k l
+        induction l generalizing k with
+        | nil => rfl
+        | cons x xs ih =>
+          simp only [enumFrom, List.map_cons, ih (k + 1)]
+          simp [initialAuthor]
+      rw [enum1, this]
       apply List.map_congr_left
       intro y hy
       have : y ∈ sp.st.head := hwh ▸ hy
